@@ -67,10 +67,10 @@ theorem pp_truthy_none : truthy .none = false := rfl
 /-- `re.search(TAG_PATTERN, s)` as the translated code sees it -/
 def searchVal (t : Val) : Option (Nat × Nat) → Val
   | none => .none
-  | some (a, b) => .obj n__MatchS [(n_texts, t), (n_span, .tuple [.int (Int.ofNat a), .int (Int.ofNat b)])]
+  | some (a, b) => .obj n__MatchS [(n_texts, t), (n_span, .tuple [.int ((a : Nat) : Int), .int ((b : Nat) : Int)])]
 
-theorem pp_search_builtin (hf : PbnRegexFacts) (r : Rec) (s : Str) :
-    ∃ t, builtinF r P .reSearchSpan [.str TAG_PATTERN, .str s, .bool false, .cls n__MatchS, .int n_texts, .int n_span]
+theorem pp_search_builtin (hf : PbnRegexFacts) (s : Str) :
+    ∃ t, ∀ r : Rec, builtinF r P .reSearchSpan [.str TAG_PATTERN, .str s, .bool false, .cls n__MatchS, .int n_texts, .int n_span]
       = .ok (searchVal t (searchTag (s.length + 1) s 0)) := by
   have h := hf.search_tag s
   cases hp : Re.pySearch false TAG_PATTERN s with
@@ -81,28 +81,63 @@ theorem pp_search_builtin (hf : PbnRegexFacts) (r : Rec) (s : Str) :
     cases mo with
     | none =>
       simp only at h
-      refine ⟨.none, ?_⟩
+      refine ⟨.none, fun r => ?_⟩
       simp only [builtinF, hp, ← h, searchVal]; rfl
     | some m =>
       simp only at h
-      refine ⟨(match matchVal n__MatchS n_texts s m with | .obj _ ((_, t) :: _) => t | _ => .none), ?_⟩
+      refine ⟨(match matchVal n__MatchS n_texts s m with | .obj _ ((_, t) :: _) => t | _ => .none), fun r => ?_⟩
       simp only [builtinF, hp, ← h, searchVal, matchVal]
       rfl
 
 
 /-! ## the two conditions -/
 theorem pp_cond1 (g : Nat) (sv tp : Val) (s : Str) (xi yi : Int) :
-    evalF (mkRec P (g + 16 + 2)) P [(K.self, sv), (n_string, .str s), (n_x, .int xi), (n_y, .int yi), (n_tag_pair, tp)]
+    evalF (mkRec P (g + 18)) P [(K.self, sv), (n_string, .str s), (n_x, .int xi), (n_y, .int yi), (n_tag_pair, tp)]
       (.or (.and (.cmp .lt (.const (.int 0)) (.var n_x)) (.cmp .lt (.var n_x) (.var n_y)))
         (.and (.cmp .lt (.var n_y) (.const (.int 0))) (.cmp .lt (.const (.int 0)) (.var n_x))))
       = .ok (.bool (decide ((0 < xi ∧ xi < yi) ∨ (yi < 0 ∧ 0 < xi)))) := by
   by_cases h1 : 0 < xi <;> by_cases h2 : xi < yi <;> by_cases h3 : yi < 0 <;> ppsimp [h1, h2, h3]
 
 theorem pp_cond2 (g : Nat) (sv tp : Val) (s : Str) (xi yi : Int) :
-    evalF (mkRec P (g + 16)) P [(K.self, sv), (n_string, .str s), (n_x, .int xi), (n_y, .int yi), (n_tag_pair, tp)]
+    evalF (mkRec P (g + 17)) P [(K.self, sv), (n_string, .str s), (n_x, .int xi), (n_y, .int yi), (n_tag_pair, tp)]
       (.or (.and (.cmp .gt (.var n_x) (.var n_y)) (.cmp .gt (.var n_y) (.const (.int 0))))
         (.and (.cmp .gt (.var n_y) (.const (.int 0))) (.cmp .gt (.const (.int 0)) (.var n_x))))
       = .ok (.bool (decide ((xi > yi ∧ yi > 0) ∨ (yi > 0 ∧ 0 > xi)))) := by
   by_cases h1 : xi > yi <;> by_cases h2 : yi > 0 <;> by_cases h3 : 0 > xi <;> ppsimp [h1, h2, h3]
+
+/-! ## running a body in two stages -/
+theorem pp_execF_append_next (r : Rec) (ss1 ss2 : List Stmt) : ∀ (env env' : Env),
+    execF r P env ss1 = .ok (env', .next) → execF r P env (ss1 ++ ss2) = execF r P env' ss2 := by
+  induction ss1 with
+  | nil =>
+    intro env env' h
+    simp only [execF, pure, Except.pure, Except.ok.injEq, Prod.mk.injEq, and_true] at h
+    subst h; rfl
+  | cons s ss ih =>
+    intro env env' h
+    rw [List.cons_append, execF]
+    rw [execF] at h
+    cases hs : execStmtF r P env s with
+    | error e => rw [hs] at h; cases h
+    | ok x =>
+      obtain ⟨e1, fl⟩ := x
+      rw [hs] at h
+      cases fl with
+      | next => exact ih e1 env' h
+      | ret v => cases h
+      | brk => cases h
+      | cont => cases h
+
+/-- the first five statements of `extract_content` (the two early returns, `x`, `y`, `tag_pair`) and the rest -/
+def ecPre : List Stmt := m_PbnParser_extract_content.body.take 5
+def ecRest : List Stmt := m_PbnParser_extract_content.body.drop 5
+
+theorem pp_callF_extract (r : Rec) (sv x : Val) :
+    callF r m_PbnParser_extract_content [sv, x] =
+      r.exec [(K.self, sv), (n_string, x)] (ecPre ++ ecRest) >>= fun x =>
+        match x.2 with
+        | .ret v => .ok (v, (lookup x.1 K.self).getD .none)
+        | _ => .ok (.none, (lookup x.1 K.self).getD .none) := by
+  rw [callF_def]; rfl
 
 end Bridge.Translated
